@@ -424,6 +424,20 @@ fn decode(u: &mut Unstructured, restricted: Option<&[SKind]>, plain_world: bool)
     }
     let dx = byte(u);
     let ds_extra = if dx < 170 { None } else { Some((dx & 1 == 1, dx & 2 == 2)) };
+    // (round 6) owner names whose leftmost label is a literal `*` although
+    // the RRset is a wildcard *expansion*: honest queries (completeness) and
+    // the relabelled-wildcard lies, variants 21.. (auth.rs::relabelled_star_lie)
+    let mut lie = lie;
+    let sx = pick(u, 64);
+    if sx >= 52 && lie.is_none() && special.is_none() {
+        match sx - 52 {
+            k @ 0..=7 => lie = Some(21 + k),
+            8 => special = Some(("*.foo.wild", T_A)),
+            9 => special = Some(("*.a.b.wild", T_TXT)),
+            10 => special = Some(("*.x.wild", T_A)),
+            _ => special = Some(("*.bar.foo.wc", T_A)),
+        }
+    }
     Case { shape, qzone, rel, qtype, lie, authority_ns, answer_fault, up_faults, bad_sigs, via_connection, warm, special, max_cname, hdr_bits, hdr_lookups, key_coll, n3_limits, small_caches, ds_extra }
 }
 
@@ -645,6 +659,9 @@ fn run_case(case: &Case, ctx: &mut Ctx) -> CaseResult {
     //--- evidence
     let kinds = if let Some(l) = lie_label { l.to_string() } else { resp.kinds.join("+") };
     ctx.class(format!("query:{kinds}"));
+    if lie_label.is_none() && qname.len() > 2 && qname[0] == 1 && qname[1] == b'*' {
+        ctx.class(format!("star-leading-qname:{kinds}"));
+    }
     for &zi in &resp.zones {
         let z = &w.zones[zi];
         ctx.class(format!("zone-status:{:?}", z.status));
@@ -1123,6 +1140,11 @@ fn health(c: &BTreeMap<String, u64>, thorough: bool) -> Result<(), String> {
         ("query:lie-dname-second-forged-cname", 30),
         ("query:lie-nxdomain-wildcard-nsec-replayed-one-label", 100),
         ("query:lie-nxdomain-wildcard-nsec-replayed-two-labels", 30),
+        ("query:lie-wildcard-relabelled-star-owner", 100),
+        ("query:lie-nxdomain-wildcard-nsec-relabelled-star-owner", 60),
+        ("query:lie-nodata-wildcard-nsec-relabelled-star-owner", 15),
+        ("star-leading-qname:wildcard", 50),
+        ("star-leading-qname:nxdomain", 15),
         ("zone-status:Secure", 3000),
         ("zone-status:Insecure", 500),
         ("zone-status:Indeterminate", 100),
